@@ -273,3 +273,36 @@ func H_C20_memory_accessors_total_for_resized_regions() {
 	}
 	verifReach("memory-accessed")
 }
+
+// JUMPDEST validity in a frame depends on that frame's code only. The analysis of a code is cached
+// per call tree under the code's hash - and the init code of a plain CREATE has no hash (create is
+// handed codeAndHash{code: code}, hash zero, exactly as EVM.Create builds it). Two creations in one
+// call tree: the first runs a short init code and takes one jump decision, the second runs another
+// init code; for every position the second frame's decision must be the one a fresh analysis of ITS
+// code gives - and must not fail at run time.
+//verif:opt unwind=80 budget_s=600 split=4
+func H_C20_jumpdest_validity_depends_on_the_frames_code_only() {
+	parent := NewContract(AccountRef(c20Caller), AccountRef(c20Contract), new(big.Int), 1000)
+	// first creation: a one- or two-byte init code (any bytes), one JUMP evaluated in it
+	first := NewContract(parent, AccountRef(c20Other), new(big.Int), 100)
+	a1 := c20Other
+	first.SetCodeOptionalHash(&a1, &codeAndHash{code: verifNondetBytes(1 + verifCase(2))})
+	first.validJumpdest(big.NewInt(0)) // what opJump / opJumpi ask
+	// second creation in the same call tree: 48 JUMPDESTs (quick) or JUMPDESTs around a PUSH2 (thorough)
+	code2 := make([]byte, 48)
+	for i := range code2 {
+		code2[i] = byte(JUMPDEST)
+	}
+	if verifThorough() {
+		code2[8], code2[9], code2[10] = byte(PUSH2), byte(JUMPDEST), byte(JUMPDEST)
+	}
+	second := NewContract(parent, AccountRef(c20Contract), new(big.Int), 100)
+	a2 := c20Contract
+	second.SetCodeOptionalHash(&a2, &codeAndHash{code: code2})
+	pos := verifNondetUint64()
+	verifAssume(pos < 64)
+	got := second.validJumpdest(new(big.Int).SetUint64(pos))
+	want := make(destinations).has(common.Hash{0x01}, code2, new(big.Int).SetUint64(pos))
+	verifReach("jump-decided")
+	verifAssert(got == want, "jump-validity-is-that-of-a-fresh-analysis-of-the-frames-own-code")
+}
